@@ -587,6 +587,13 @@ func (vc *VC) binop(st *State, op token.Token, a, b Val, ta, tb types.Type) Val 
 			if op != token.AND_NOT && x.IsConst && !y.IsConst {
 				v, c = y, x
 			}
+			if op == token.AND && c.IsConst && c.Int.Sign() < 0 && !v.IsConst {
+				// x & c with c = ^m for a small non-negative mask m (Go compiles x & ^m this way): the same as x &^ m
+				m := new(big.Int).Not(c.Int)
+				if m.Sign() >= 0 && m.BitLen() <= 40 {
+					return vc.binop(st, token.AND_NOT, v, IntBig(m), ta, tb)
+				}
+			}
 			if c.IsConst && c.Int.Sign() >= 0 && c.Int.BitLen() <= 40 && !(op == token.AND_NOT && x.IsConst && !y.IsConst) {
 				if v.IsConst {
 					r := new(big.Int)
